@@ -156,7 +156,7 @@ class Check:
     LEVEL = "exploration"
     RULE = ("the full 32-point lattice VTL_THREADS{1,2,4,16} x VTL_USE_IN_MEMORY_DB{1,0} x VTL_MEMORY_LIMIT{unset,64MB} x "
             "VTL_TEMP_DIRECTORY{default,fresh} for every program of vtlmc/programs.py (small inputs), plus 8 plan-sensitive scripts on "
-            "3e5-row (quick) / 1e6-row (thorough) inputs at the lattice points without memory limit (16) x 2 repetitions; oracle = "
+            "2.5e5-row inputs at threads {1,4,16} x {in-memory, file-backed} (quick) / 1e6-row inputs at all 32 points (thorough), 2 repetitions each; oracle = "
             "same set of datapoints as the default configuration; runs that do not complete under 64MB are recorded, not judged. "
             "distinct key = (program, size, lattice point, verdict)")
     ASSUMPTIONS = ["DuckDB's internal parallel scheduling is repeated (2x), not enumerated"]
@@ -164,13 +164,15 @@ class Check:
     def run(self, tier, seed, rec):
         harness.boot()
         P = programs.programs()
-        harness.pmap(small_item, [[p] for p in harness.seeded_order(P, seed)], rec, workers=min(8, int(os.environ.get("VTLMC_WORKERS", "16"))))
-        n = 300000 if tier == "quick" else 1000000
+        harness.pmap(small_item, [[p] for p in harness.seeded_order(P, seed)], rec)
+        n = 250000 if tier == "quick" else 1000000
         pts = [p for p in lattice() if p["VTL_MEMORY_LIMIT"] is None]
         if tier == "thorough":
             pts = list(lattice())
+        else:   # quick: thread counts {1,4,16} x {in-memory, file-backed}, default temp directory
+            pts = [p for p in pts if p["VTL_THREADS"] != "2" and p["VTL_TEMP_DIRECTORY"] is None]
         items = [(name, script, n, pts[i::2]) for name, script in BIG_SCRIPTS for i in (0, 1)]
-        harness.pmap(big_item, items, rec, workers=min(4, int(os.environ.get("VTLMC_WORKERS", "16"))))
+        harness.pmap(big_item, items, rec, workers=min(8, int(os.environ.get("VTLMC_WORKERS", "16"))))
         return {"exhaustive": True, "lattice_points": 32, "large_rows": n}
 
     def replay(self, data):
